@@ -2,11 +2,11 @@
 # tools/seed_batch2.sh C04 [C05 ...]: verify second-round mutants delivered in /tmp/wt2_<ID>/mutants.
 # Results are stored under the next free names (<ID>_m3, <ID>_m4, ...), never over an existing seeded change.
 for P in "$@"; do
-  for d in /tmp/wt2_$P/mutants/m*.diff; do
+  for d in ${WT_PREFIX:-/tmp/wt2_}$P/mutants/m*.diff; do
     [ -f "$d" ] || continue
     n=$(basename $d .diff)
     k=1; while [ -d seeded/${P}_m$k ]; do k=$((k+1)); done
-    /venv/bin/python tools/seed_verify.py $P ${P}_m$k $d /tmp/wt2_$P/mutants/${n}_demo.py /tmp/wt2_$P/mutants/${n}_notes.md 2>/dev/null | python3 -c "
+    /venv/bin/python tools/seed_verify.py $P ${P}_m$k $d ${WT_PREFIX:-/tmp/wt2_}$P/mutants/${n}_demo.py ${WT_PREFIX:-/tmp/wt2_}$P/mutants/${n}_notes.md 2>/dev/null | python3 -c "
 import sys,json
 d=json.load(sys.stdin)
 print(d['name'], '(from $n)', 'confirmed' if d.get('confirmed') else 'NOT-CONFIRMED', 'suite', d.get('suite_passes_with_change'), 'demo', d.get('demo_exit_unchanged'), d.get('demo_exit_changed'), 'OWN-CHECK', d.get('caught_by_own_property_check'))
